@@ -149,13 +149,14 @@ def step (s : St) (ws : List String) : St × String :=
   | ["rep", top, fuel] =>
     match parseName top, parseNat fuel with
     | some top, some fuel =>
-      if !representable s.T top then (s, s!"rep 0 {showB (s.T.defined top)} forms skipped") else
+      if !representable s.T top then
+        (s, s!"rep 0 {showB (s.T.defined top)} forms skipped lasthop {showB (representableLastHop s.T top)}") else
       let (s', r) := getExplore s top fuel
       let forms := match r with
         | some A => toString ((A.arcs.map fun (a : Nat × Option Nat × Nat) => a.1) ++
             (A.arcs.map fun (a : Nat × Option Nat × Nat) => a.2.2) ++ [A.start, A.final]).eraseDups.length
         | none => "none"
-      (s', s!"rep {showB (representable s.T top)} {showB (s.T.defined top)} forms {forms}")
+      (s', s!"rep {showB (representable s.T top)} {showB (s.T.defined top)} forms {forms} lasthop 1")
     | _, _ => (s, "bad-op")
   | "cmp" :: top :: fuel :: maxp :: nst :: st :: fin :: arcs =>
     match parseName top, parseNat fuel, parseNat maxp, parseNat nst, parseNat st, parseNat fin, arcs.mapM parseArc with
@@ -171,6 +172,16 @@ def step (s : St) (ws : List String) : St × String :=
         | .ok (some w) => (s', s!"differ {showWords w} impl={showOB (decideAccepts F w)} spec={showOB (decideAccepts A w)}")
         | .error e => (s', s!"error {e.replace " " "_"}")
     | _, _, _, _, _, _, _ => (s, "bad-op")
+  | ["expand", top] =>
+    match parseName top with
+    | some top =>
+      match expandTop s.T top with
+      | none => (s, "xnone")
+      | some st =>
+        let arcs := st.links.map fun l =>
+          s!"{l.src}:{l.dst}:{match l.label with | some w => toString w | none => "-"}:{showRat l.wt}"
+        (s, s!"xfsg {st.nstate} {arcs.length} {sepBy " " arcs}")
+    | none => (s, "bad-op")
   | ["acc", top, fuel, w] =>
     match parseName top, parseNat fuel, parseWords w with
     | some top, some fuel, some w =>
